@@ -104,8 +104,13 @@ def reader_rules(ctx, R):
         if not eof:
             ctx.notice("M3", "block reader loop has no end-of-stream exit (recv returning b'' would spin); outside the property")
     # buffered bytes first
-    bufstores = [x for x in cfg.stmt_nodes() if isinstance(x.ast, ast.Assign) and any(
-        isinstance(t, ast.Attribute) and mangle(R.cls.name, t.attr) == R.buffer_attr for t in x.ast.targets)]
+    def deletes_prefix(st):
+        """`del buf[:k]` on the read buffer (in-place form of buf = buf[k:])"""
+        return isinstance(st, ast.Delete) and any(isinstance(t, ast.Subscript) and isinstance(t.value, ast.Attribute)
+                                                  and mangle(R.cls.name, t.value.attr) == R.buffer_attr and isinstance(t.slice, ast.Slice)
+                                                  and t.slice.lower is None for t in st.targets)
+    bufstores = [x for x in cfg.stmt_nodes() if (isinstance(x.ast, ast.Assign) and any(
+        isinstance(t, ast.Attribute) and mangle(R.cls.name, t.attr) == R.buffer_attr for t in x.ast.targets)) or deletes_prefix(x.ast)]
 
     def buf_empty(fact):
         e, pol = fact_atom(fact)
@@ -136,6 +141,37 @@ def reader_rules(ctx, R):
     else:
         ctx.violation("M3", blk, "size-invariant", "the receive loop of the block reader does not read up to the announced size: %s" % inv,
                       node=blk.node, witness="a literal whose first octets arrived with the previous line is returned short by that many octets")
+
+    # the result is a value of its own: a name bound to the buffer OBJECT (no slice, no copy) changes when the buffer is emptied in place
+    for a in walk_no_nested(blk.node):
+        if isinstance(a, ast.Assign) and isinstance(a.value, ast.Attribute) and mangle(R.cls.name, a.value.attr) == R.buffer_attr \
+                and any(isinstance(t, ast.Name) for t in a.targets):
+            inplace = [x for x in walk_no_nested(blk.node) if (isinstance(x, ast.Delete) and any(
+                isinstance(t, ast.Subscript) and isinstance(t.value, ast.Attribute) and mangle(R.cls.name, t.value.attr) == R.buffer_attr for t in x.targets))
+                or (isinstance(x, ast.Call) and isinstance(x.func, ast.Attribute) and x.func.attr in ("clear", "extend", "append", "pop")
+                    and isinstance(x.func.value, ast.Attribute) and mangle(R.cls.name, x.func.value.attr) == R.buffer_attr)
+                or (isinstance(x, ast.AugAssign) and isinstance(x.target, ast.Attribute) and mangle(R.cls.name, x.target.attr) == R.buffer_attr)]
+            if inplace:
+                ctx.violation("M3", blk, "result-aliases-buffer", "%s binds the buffer object itself (%s) and then modifies the buffer in place (%s): "
+                              "the bytes already taken change under the result" % (blk.qualname, norm(a), norm(inplace[0])[:40]), node=a,
+                              witness="a literal cut inside its body loses its head: the wrong script / name is returned, replies stay in step")
+    # ... and the loop body keeps it: what is subtracted from the remaining count is the length of what was appended
+    for lp in [x for x in walk_no_nested(blk.node) if isinstance(x, ast.While)]:
+        adds = [a for a in walk_no_nested(lp) if isinstance(a, ast.AugAssign) and isinstance(a.op, ast.Add) and isinstance(a.target, ast.Name)]
+        subs = [a for a in walk_no_nested(lp) if isinstance(a, ast.AugAssign) and isinstance(a.op, ast.Sub) and isinstance(a.target, ast.Name)]
+        test_names = {n.id for n in ast.walk(lp.test) if isinstance(n, ast.Name)}
+        for sb in subs:
+            if sb.target.id not in test_names:
+                continue
+            v = sb.value
+            chunk = v.args[0].id if isinstance(v, ast.Call) and call_name(v) == "len" and len(v.args) == 1 and isinstance(v.args[0], ast.Name) else None
+            appended = {a.value.id for a in adds if isinstance(a.value, ast.Name)}
+            if chunk is not None and chunk in appended:
+                ctx.holds("M3", "%s: the remaining count decreases by len(%s), the chunk appended in that iteration" % (blk.qualname, chunk))
+            else:
+                ctx.violation("M3", blk, "remaining-count-step", "the remaining count %s is decreased by %s, which is not the length of the chunk "
+                              "appended in that iteration (%s)" % (sb.target.id, norm(v), sorted(appended) or "nothing appended"), node=sb,
+                              witness="a literal completed by two further recv() calls is returned short; its tail is parsed as the next lines")
 
     # ---- M6 chunk uses ------------------------------------------------------------
     ctx.rule("M6", "the bytes returned by recv are used only in segmentation-independent ways (append to buffer, len, emptiness, debug print as is)")
@@ -202,6 +238,9 @@ def reader_rules(ctx, R):
             isinstance(t, ast.Attribute) and mangle(R.cls.name, t.attr) == R.buffer_attr for t in x.ast.targets)
             and any(isinstance(s, (ast.Subscript, ast.Call)) for s in ast.walk(x.ast.value))
             and any(isinstance(s, ast.Attribute) and mangle(R.cls.name, s.attr) == R.buffer_attr for s in ast.walk(x.ast.value))]
+        consume += [x for x in cfgl.stmt_nodes() if isinstance(x.ast, ast.Delete) and any(
+            isinstance(t, ast.Subscript) and isinstance(t.value, ast.Attribute) and mangle(R.cls.name, t.value.attr) == R.buffer_attr
+            and isinstance(t.slice, ast.Slice) and t.slice.lower is None and t.slice.upper is not None for t in x.ast.targets)]
         if not consume:
             raise AnalysisError("M4", "line reader: statement that removes the line from the buffer not recognised")
         bad = []
@@ -302,6 +341,23 @@ def m1(ctx, R):
 
 
 
+def is_buffer_reset(ctx, R, f, st):
+    """st empties the read buffer: `buf = b""` / `bytes()` / `bytearray()`, `del buf[:]`, `buf.clear()`."""
+    def is_buf(e):
+        return isinstance(e, ast.Attribute) and mangle(R.cls.name, e.attr) == R.buffer_attr
+    if isinstance(st, ast.Assign) and any(is_buf(t) for t in st.targets):
+        v = const_value(ctx.program, f, st.value)
+        if v is not TOP and v in (b"", "", None):
+            return True
+        return isinstance(st.value, ast.Call) and isinstance(st.value.func, ast.Name) and st.value.func.id in ("bytes", "bytearray") and not st.value.args
+    if isinstance(st, ast.Delete):
+        return all(isinstance(t, ast.Subscript) and is_buf(t.value) and isinstance(t.slice, ast.Slice) and t.slice.lower is None
+                   and t.slice.upper is None for t in st.targets)
+    if isinstance(st, ast.Expr) and isinstance(st.value, ast.Call) and isinstance(st.value.func, ast.Attribute) and st.value.func.attr == "clear":
+        return is_buf(st.value.func.value)
+    return False
+
+
 def m2(ctx, R):
     blk, lin = R.block_reader, R.line_reader
     # ---- M2 ------------------------------------------------------------------
@@ -320,7 +376,7 @@ def m2(ctx, R):
             continue
         st = stmt_of(node)
         v = const_value(ctx.program, f, st.value) if isinstance(st, ast.Assign) else TOP
-        if f.cls is R.cls and f.name in sock_replacers and kind == "assign" and v is not TOP and v in (b"", "", None):
+        if f.cls is R.cls and f.name in sock_replacers and is_buffer_reset(ctx, R, f, st):
             ctx.holds("M2", "%s resets the buffer where the socket is replaced/closed" % f.qualname)
             continue
         ctx.violation("M2", f, "foreign-buffer-write", "the read buffer is modified outside the reader functions: %s" % norm(st),
@@ -329,6 +385,8 @@ def m2(ctx, R):
         n += 1
         if f.cls is R.cls and f.name in owners:
             continue
+        if f.cls is R.cls and f.name in sock_replacers and is_buffer_reset(ctx, R, f, stmt_of(node)):
+            continue  # part of `del buf[:]` / `buf.clear()`
         ctx.violation("M2", f, "foreign-buffer-read", "the read buffer is read outside the reader functions", node=node)
     ctx.need("M2", "buffer accesses", n, 5)
     ctx.holds("M2", "%d buffer accesses, all in %s" % (n, sorted(owners)))
